@@ -1,7 +1,7 @@
 (* C18 — valuation types and comparators obey their equality/ordering contracts. *)
 From Coq Require Import List NArith Bool. Import ListNotations.
 From BddVerif Require Import Model.Bdd Model.Apply Model.Ops Model.Valuation Proofs.Sem Proofs.Canon Proofs.CmpSem
-  Proofs.ValuationSem Proofs.ValuationCmp.
+  Proofs.ValuationSem Proofs.ValuationCmp Model.Alias Proofs.Alias.
 Open Scope N_scope.
 
 (* == on partial valuations is equality of the finite maps var -> value, whatever the stored padding *)
@@ -148,3 +148,30 @@ Example C18_example_cmp :
   cmp_cardinality (mk_var 3 1) (mk_true 2) = OEq /\ cmp_cardinality_strict (mk_var 3 1) (mk_true 2) = None.
 Proof. vm_compute. repeat split; reflexivity. Qed.
 Print Assumptions C18_example_cmp.
+
+(* ---- total valuations (BddValuation; Model/Alias.v): every in-place mutator (set, clear, flip_value, set_value,
+   IndexMut) succeeds exactly on an index inside the vector, keeps the length and rewrites that one cell; a history
+   panics exactly when some step indexes beyond the (constant) length *)
+Theorem C18_val_step : forall v o,
+  match val_step v o with
+  | Ok w => val_op_var o < N.of_nat (length v) /\ length w = length v /\
+            forall y, val_value w y =
+              if y =? val_op_var o then bind (val_value v y) (fun c => Ok (val_op_fun o c)) else val_value v y
+  | Panic => N.of_nat (length v) <= val_op_var o
+  | OutOfFuel => False
+  end.
+Proof. exact val_step_spec. Qed.
+Print Assumptions C18_val_step.
+Theorem C18_val_history_ok_iff : forall v ops,
+  (exists w, val_run v ops = Ok w) <-> Forall (fun o => val_op_var o < N.of_nat (length v)) ops.
+Proof. exact val_run_ok_iff. Qed.
+Print Assumptions C18_val_history_ok_iff.
+Theorem C18_val_flip_involutive : forall v x w u, val_step v (VFlip x) = Ok w -> val_step w (VFlip x) = Ok u -> u = v.
+Proof. exact val_flip_flip. Qed.
+Print Assumptions C18_val_flip_involutive.
+Theorem C18_val_all_value : forall c n x, val_value (val_all c n) x = if x <? n then Ok c else Panic.
+Proof. exact val_all_value. Qed.
+Print Assumptions C18_val_all_value.
+Theorem C18_val_all_num_vars : forall c n, n < 65536 -> val_num_vars (val_all c n) = n.
+Proof. exact val_all_num_vars. Qed.
+Print Assumptions C18_val_all_num_vars.
